@@ -486,26 +486,7 @@ func (e *genEnv) typed(r *rand.Rand, n int, method string, follower bool) *reque
 // hostile table names: nothing is documented about them, so only "the server survives" and
 // "refused ⇒ no effect" are judged.
 func hostileNames(r *rand.Rand) string {
-	switch r.Intn(9) {
-	case 0:
-		return strings.Repeat("n", 300) // longer than a file name may be
-	case 1:
-		return "nul\x00byte"
-	case 2:
-		return "sl/ash"
-	case 3:
-		return "../esc"
-	case 4:
-		return "\xff\xfe\xfd" // not UTF-8
-	case 5:
-		return "."
-	case 6:
-		return strings.Repeat("N", 5000)
-	case 7:
-		return " "
-	default:
-		return "new\nline"
-	}
+	return hostileNameAt(r.Intn(len(hostileNameList)))
 }
 
 // tables draws one request to the tables API.
